@@ -2,7 +2,7 @@
    [L r s]: the string s belongs to the language of r (inductive definition; the order of
    alternatives plays no role).  [matches] is the derivative-based decision procedure the
    implementation is compared with on every run. *)
-Require Import Regex RegexProofs RegexBT RegexBTProofs.
+Require Import Regex RegexProofs RegexBT RegexBTProofs RegexWrap RegexWrapProofs.
 From Coq Require Import List Arith Bool.
 Import ListNotations.
 
@@ -51,4 +51,22 @@ Example C17_witness :
   let a := Chr (Nat.eqb 97) in let b := Chr (Nat.eqb 98) in let c := Chr (Nat.eqb 99) in
   matches (Cat (Alt a (Cat a b)) (Opt c)) [97; 98] = true /\ matches (Cat (Alt a (Cat a b)) (Opt c)) [97; 98; 98] = false /\
   matches (Interval 1 3 b) [98; 98; 98] = true /\ matches (Interval 1 3 b) [98; 98; 98; 98] = false.
+Proof. vm_compute. repeat split. Qed.
+
+(* The pattern is handed to the engine wrapped in a group whose end is anchored: "(" inside_group(P) ")\'" .  Whatever P is, the
+   text written inside cannot close that group: read back, it has no ")" outside brackets, unescaped, at depth 0.  (The reading of
+   groups - [closed_early] - is a model of the engine's lexer: backslash pairs, bracket expressions up to their "]".) *)
+Theorem C17_wrapper_never_closed_early : forall p, closed_early QT 0 (inside_group true p) = false.
+Proof. exact inside_group_never_closes. Qed.
+Print Assumptions C17_wrapper_never_closed_early.
+
+(* "./a)|./b" ; "(a)(b)\2" ; "\10" ; "[)]" ; "x[[:punct:]^]" ; posix-basic "\(a\)\1" *)
+Example C17_wrap_witness :
+  inside_group true [46; 47; 97; 41; 124; 46; 47; 98] = [46; 47; 97; 92; 41; 124; 46; 47; 98] /\
+  inside_group true [40; 97; 41; 40; 98; 41; 92; 50] = [40; 97; 41; 40; 98; 41; 92; 51] /\
+  inside_group true [92; 49; 48] = [92; 50; 91; 48; 93] /\
+  inside_group true [91; 41; 93] = [91; 41; 93] /\
+  inside_group true [120; 91; 91; 58; 112; 117; 110; 99; 116; 58; 93; 94; 93] = [120; 91; 33; 45; 47; 58; 45; 64; 91; 45; 96; 123; 45; 126; 94; 93] /\
+  inside_group false [92; 40; 97; 92; 41; 92; 49] = [92; 40; 97; 92; 41; 92; 50] /\
+  closed_early QT 0 [46; 47; 97; 41; 124; 46; 47; 98] = true.
 Proof. vm_compute. repeat split. Qed.
